@@ -202,6 +202,34 @@ func main() {
 		afterStaking = a > 0 && s > 0 && a > s
 	}
 
+	// module account permissions of the alliance module and of the rewards pool (maccPerms): the module mints and burns the
+	// virtual staking tokens (rebalancing) and burns whatever staking-denom coins it holds at the end of a block
+	macc := func(name string) []string {
+		i := strings.Index(app, name+":")
+		if i < 0 {
+			return []string{"<missing>"}
+		}
+		seg := app[i+len(name)+1:]
+		if j := strings.Index(seg, "\n"); j >= 0 {
+			seg = seg[:j]
+		}
+		seg = strings.TrimSpace(strings.TrimSuffix(strings.TrimSpace(seg), ","))
+		if seg == "nil" {
+			return []string{}
+		}
+		seg = strings.Trim(seg, "{}")
+		var out []string
+		for _, x := range strings.Split(seg, ",") {
+			if x = strings.TrimSpace(x); x != "" {
+				out = append(out, x)
+			}
+		}
+		sort.Strings(out)
+		return out
+	}
+	modulePerms := macc("alliancemoduletypes.ModuleName")
+	poolPerms := macc("alliancemoduletypes.RewardsPoolName")
+
 	sort.Slice(hz, func(i, j int) bool {
 		a, b := hz[i], hz[j]
 		if a.file != b.file {
@@ -249,7 +277,10 @@ func main() {
 	sb.WriteString("/-- fields of the stored asset assigned by UpdateAllianceAsset -/\n")
 	fmt.Fprintf(&sb, "def updateWhitelist : List String := %s\n\n", leanStrList(whitelist))
 	fmt.Fprintf(&sb, "def allianceHooksRegistered : Bool := %v\n", hooksRegistered)
-	fmt.Fprintf(&sb, "def endBlockerAfterStaking : Bool := %v\n\n", afterStaking)
+	fmt.Fprintf(&sb, "def endBlockerAfterStaking : Bool := %v\n", afterStaking)
+	sb.WriteString("/-- maccPerms of app/app.go for the alliance module account and the rewards pool (sorted) -/\n")
+	fmt.Fprintf(&sb, "def allianceModulePerms : List String := %s\n", leanStrList(modulePerms))
+	fmt.Fprintf(&sb, "def rewardsPoolPerms : List String := %s\n\n", leanStrList(poolPerms))
 	sb.WriteString("end Alliance.Generated\n")
 	_ = os.Remove(out)
 	if err := os.WriteFile(out, []byte(sb.String()), 0o644); err != nil {
